@@ -3,9 +3,9 @@
 package c05
 
 import (
-	"runtime"
-	"os"
 	"fmt"
+	"os"
+	"runtime"
 	"sort"
 	"sync"
 	"testing"
